@@ -30,7 +30,7 @@ def plan(ctx):
     from sqv.harness import txt
     for i, prog in enumerate(txt.PROGRAMS):
         obs.append(Obligation(f"txt.only_parser_errors.p{i}", "xh", "txt", "error_line", param={"program": i, "class_only": True}, timeout=T * 6,
-                              bounds="one of 18 concrete programs; stray text from 32 samples (brackets, separators, operators, zero / empty literals, illegal characters, reserved words, unterminated quotes and %names, NUL) inserted at, "
+                              bounds="one of 20 concrete programs; stray text from 37 samples (brackets, separators, operators, zero / empty literals, illegal characters, reserved words, unterminated quotes and %names, NUL) inserted at, "
                                      "or the text truncated at, every token boundary, under LF / CRLF / ; variants (finite domain enumerated through the solver; real lexer+parser)",
                               desc=f"program {i} damaged at every token boundary: parse returns or raises ParserError, nothing else"))
     obs += lrc_obligations(ctx, ["consistency"], prefix="lrc.")
